@@ -267,7 +267,7 @@ def tasks(tier, seed):
     else:
         t.append(('sweep_subsets', dict(which='packaged', pairs_from=0, pairs_to=npk, sample_pairs=250)))
         t.append(('sweep_subsets', dict(which='full', pairs_from=0, pairs_to=nfull, sample_pairs=250)))
-    k = 3 if not full else 8
+    k = 4 if not full else 8
     for i in range(k):
         t.append(('hyp_encode', dict(n=200 if not full else 2000, generated=False)))
         t.append(('hyp_encode', dict(n=150 if not full else 1500, generated=True)))
